@@ -125,6 +125,9 @@ Qed.
    the random stream: numerators of random.random() *)
 Definition sok (s : stream) : Prop := Forall (fun k => 0 <= k < two53) s.
 
+Lemma sok_stream_ok : forall s, stream_ok s -> sok s.
+Proof. intros s H. exact H. Qed.
+
 Lemma draw_ok : forall s, sok s -> 0 <= fst (draw s) < two53 /\ sok (snd (draw s)).
 Proof.
   intros [|k s] H; cbn [draw fst snd].
